@@ -23,6 +23,9 @@ def set_blocks(exprs):
         _BLOCKS.append((e, compile(e, "<block>", "eval")))
 
 
+HARNESS = [None]  # the harness module of the current query (for known-finding predicates: `H`)
+
+
 def blocked(**args):
     """True iff the harness arguments match a blocked (known / spurious) case.
 
@@ -31,7 +34,7 @@ def blocked(**args):
     """
     if not _BLOCKS:
         return False
-    ns = {"sel": SEL, "struct": struct}
+    ns = {"sel": SEL, "struct": struct, "H": HARNESS[0], "A": args}
     ns.update(args)
     for (_src, code) in _BLOCKS:
         if eval(code, {"__builtins__": __builtins__}, ns):
@@ -39,8 +42,8 @@ def blocked(**args):
     return False
 
 
-def match_expr(expr, args, sel):
-    ns = {"sel": sel, "struct": struct}
+def match_expr(expr, args, sel, harness=None):
+    ns = {"sel": sel, "struct": struct, "H": harness, "A": args}
     ns.update(args)
     try:
         return bool(eval(expr, {"__builtins__": __builtins__}, ns))
@@ -103,3 +106,42 @@ def fresh_process():
 
 def repo_root():
     return os.environ.get("VERIF_REPO", "/repo")
+
+
+# ---------------------------------------------------------------------------
+# generated harness functions: a query only carries the symbolic leaves it uses
+
+
+def gen_fn(tag, name, params, pres, impl_module, impl_name):
+    """Writes a harness function (PEP-316 docstring) with exactly `params` = [(name, type)] into the
+    scratch directory and imports it. The body delegates to impl_module.impl_name(dict_of_args)."""
+    import importlib.util
+    import tempfile
+
+    scratch = os.environ.get("VERIF_SCRATCH") or tempfile.mkdtemp(prefix="verif-gen-")
+    sig = ", ".join("%s: %s" % (n, t) for (n, t) in params)
+    doc = "".join("    pre: %s\n" % p for p in pres)
+    call = ", ".join("%s=%s" % (n, n) for (n, _t) in params)
+    src = (
+        "from %s import %s as _impl\n\n\ndef %s(%s) -> bool:\n    \"\"\"\n%s    post: _\n    \"\"\"\n    return _impl(dict(%s))\n"
+        % (impl_module, impl_name, name, sig, doc, call)
+    )
+    safe = "".join(c if c.isalnum() else "_" for c in tag)
+    path = os.path.join(scratch, "gen_%s_%d.py" % (safe, os.getpid()))
+    with open(path, "w") as f:
+        f.write(src)
+    spec = importlib.util.spec_from_file_location("gen_" + safe, path)
+    mod = importlib.util.module_from_spec(spec)
+    sys.modules[spec.name] = mod
+    spec.loader.exec_module(mod)
+    return getattr(mod, name)
+
+
+def is_concrete(v):
+    """True iff v is a plain Python value (not a CrossHair proxy)."""
+    try:
+        from crosshair.tracers import NoTracing
+    except ImportError:
+        return True
+    with NoTracing():
+        return type(v) in (int, float, str, bool, bytes, type(None))
